@@ -108,6 +108,35 @@ pub fn run(ctx: &Ctx, rep: &mut Report) {
             }
         }
     }
+    // a payload of 11 000 characters under every type value (std / alloc only: the
+    // no-allocator build cannot hold it): the variant is still decided by the first six bits
+    if !mon::is_noalloc() {
+        for (i, &ch) in crate::armor::ALPHABET.iter().enumerate() {
+            if !ctx.mine(item) {
+                item += 1;
+                continue;
+            }
+            item += 1;
+            let t = i as u8;
+            let mut chars: Vec<u8> = (0..11_000).map(|_| *r.pick(crate::armor::ALPHABET)).collect();
+            chars[0] = ch;
+            let line = nmea_ref::mk(1, 1, None, &chars, 0);
+            rep.eval();
+            let mut p = Parser::new();
+            let want = variant_of(t);
+            match p.parse(&line, true) {
+                Call::Panic(pi) => rep.violation(PID, format!("panic@{}", pi.loc), format!("11 000-character payload of type {}: {}", t, pi.msg), || J::s("11 000-character payload")),
+                Call::Done(Outcome::Complete(s)) => {
+                    let v = s.message.as_ref().map(|m| m.variant);
+                    rep.class(format!("huge-sentence|t{}|Ok", t));
+                    if v != want || want.is_none() {
+                        rep.violation(PID, format!("sentence-type-{}-wrong-variant", t), format!("11 000-character payload with first character {:?} (type {}) decoded as {:?}, expected {:?}", ch as char, t, v, want), || J::s("11 000-character payload"));
+                    }
+                }
+                Call::Done(_) => rep.class(format!("huge-sentence|t{}|Err", t)),
+            }
+        }
+    }
     for t in crate::decode_ref::SUPPORTED {
         rep.require(&format!("type{}:Ok", t));
     }
